@@ -436,7 +436,8 @@ def validate_evidence(ev):
 
 
 def write_evidence(pid, ev):
-    d = os.path.join(VERIF, "evidence")
+    # evidence/ describes /repo only; runs against another tree (VERIF_REPO, mutation experiments) go to build/
+    d = os.path.join(VERIF, "evidence") if REPO == "/repo" else os.path.join(BUILD, "evidence_other")
     os.makedirs(d, exist_ok=True)
     validate_evidence(ev)
     tmp = os.path.join(d, pid + ".json.tmp")
